@@ -144,6 +144,36 @@ def run(ctx, model_available=True):
                     if msg_tuple(r2["msg"]) != m:
                         failures.append({"kind": "oracle", "sig": "C01:gateway-roundtrip", "desc": f"sent {m!r}, wire {line!r}, listened {msg_tuple(r2['msg'])!r}", "case": {"message": m, "line": line}})
         impls.append(im)
+    # the same Message object sent again after its fields were changed: what is
+    # written must be the encoding of the values it carries now
+    import asyncio
+
+    from common import Config, Gateway, Message, ScriptedTransport
+
+    loop = asyncio.new_event_loop()
+    tr = ScriptedTransport()
+    gw = Gateway(tr, Config())
+    mobj = Message(1, 1, 1, 0, 2, "first")
+    for _ in range(ctx.budget(300, 3000)):
+        m = msgs[rng.randrange(len(msgs))]
+        n, c, k, a, t, p = m
+        if k not in (1, 3) or not payload_ok(p):
+            continue
+        if rng.random() < 0.7:
+            mobj.node_id, mobj.child_id, mobj.command, mobj.ack, mobj.message_type, mobj.payload = n, c, k, a, t, p
+        else:
+            mobj = Message(n, c, k, a, t, p)
+        tr.writes = []
+        try:
+            loop.run_until_complete(gw.send(mobj, message_buffer=False))
+        except Exception as e:  # noqa: BLE001
+            failures.append({"kind": "oracle", "sig": "C01:gateway-send", "desc": f"send of {m!r} raised {type(e).__name__}", "case": {"message": m}})
+            continue
+        gw_cases += 1
+        want = f"{n};{c};{k};{a};{t};{p}\n"
+        if [w for w, _ in tr.writes] != [want]:
+            failures.append({"kind": "oracle", "sig": "C01:gateway-send", "desc": f"send of a message carrying {m!r} wrote {tr.writes!r}, expected {want!r} (the Message object had been sent before with other field values)", "case": {"message": m}})
+    loop.close()
     evaluations = len(msgs) + gw_cases
     if model_available:
         outs = d.run()
